@@ -19,7 +19,24 @@ def build_default(d):
     return v
 
 
+class BuildFailed(Exception):
+    """The library refused (or crashed on) a model the generators consider expressible, while it was put together
+    through the public classes.  Carries the model so that the case can be replayed (pbt.core turns it into a violation)."""
+
+    def __init__(self, schema_json, exc):
+        super().__init__(f'{type(exc).__name__}: {exc}')
+        self.schema_json, self.exc = schema_json, exc
+
+
 def build(s: ASchema, **dbkw):
+    from . import model
+    try:
+        return _build(s, **dbkw)
+    except Exception as e:  # noqa
+        raise BuildFailed(model.to_json(s), e) from e
+
+
+def _build(s: ASchema, **dbkw):
     from pydbml import Database
     from pydbml.classes import (Column, Enum, EnumItem, Expression, Index, Note, Project, Reference,
                                 StickyNote, Table, TableGroup)
